@@ -81,7 +81,14 @@ func c03loop(p *Program, r *Report, rule string) {
 			}
 		},
 		Classify: func(v Valuation, pa *Path) string {
-			if len(pa.Calls("Conn.handleControl")) > 0 {
+			if hc := pa.Calls("Conn.handleControl"); len(hc) > 0 {
+				ok, known := pa.Decided("(" + hc[0].Res.Key() + " == nil)")
+				if known && ok && pa.End != "loop" {
+					return "CONTROL-THEN-" + pa.End // a handled control frame must not end the loop (it would be delivered as data)
+				}
+				if known && !ok && (pa.End != "return" || retErr(pa) != "nonnil") {
+					return "CONTROL-ERROR-SWALLOWED"
+				}
 				return "CONTROL"
 			}
 			if pa.End == "loop" {
